@@ -91,6 +91,7 @@ type Frame struct {
 	allocAt map[*ssa.Alloc]bool
 	contract *Contract
 	rangeMaps map[*ssa.Range]*Val
+	doneClauses map[ssa.Instruction]bool
 	fnConsts map[string]*ssa.Function // function constants seen (candidates for dynamic calls)
 }
 
